@@ -260,6 +260,10 @@ OPTION_PROBES = (
     "znone",
 )
 UNSET = "<unset>"
+# DESIGN.md fixes "a context created earlier" as a context of an EARLIER BUILDER.  Contexts of the same builder share the
+# builder's LanguageConfig by documented design ("the config is scoped by the builder"), so a later create() on the same
+# builder is visible through them; that is counted (stats) and only reported when this switch is turned on.
+REPORT_SAME_BUILDER_SHARING = False
 PROBE_TEMPLATE = "{% for k, v in options.items() %}{{ k }}\x01{{ v }}\x01{{ 'T' if v else 'F' }}\x02{% endfor %}"
 CLI_FLAGS = (
     ("omit_float_serialization_support", "--omit-float-serialization-support"),
@@ -597,13 +601,18 @@ class HistoryRunner:
                 )
                 rec[2] = now
 
-    def note_same_builder(self, builder_index: int) -> None:
+    def note_same_builder(self, builder_index: int, desc: str = "") -> None:
         for rec in self.contexts:
-            bi, lctx, then, _ = rec
+            bi, lctx, then, cdesc = rec
             if bi == builder_index:
                 now = self.observe(lctx, template=False)
                 if now != then:
                     self.stat("same_builder_earlier_context_follows_later_create")
+                    if REPORT_SAME_BUILDER_SHARING:
+                        self.violate(
+                            {"kind": "earlier_context_of_same_builder_changed"},
+                            f"{desc}: the context created earlier by {cdesc} (same builder) reports different values now",
+                        )
                     rec[2] = now
 
     def note_state(self, rb: R.RefBuilder) -> None:
@@ -649,7 +658,7 @@ class HistoryRunner:
                     obs = self.observe(lctx)
                     self.compare(obs, rc, "api", desc)
                     self.note_outcome(obs, rb, initial)
-                    self.note_same_builder(bi)
+                    self.note_same_builder(bi, desc)
                     base = {k: v for k, v in obs.items() if k != "template"}
                     if bi + 1 < len(builders):
                         # baseline for the later re-observation: taken after the first observation, so that anything
